@@ -38,10 +38,12 @@ TRUSTED_BASE = [
     "correspondence harness harness/props/C17.py + harness/impl/c17_env.py (FakeLLM, fake embeddings, CPU watchdog) + Drive/C17.lean",
     "static tie: ast scan of actions/llm/generation.py and actions/v2_x/generation.py for render call sites",
     "CPython str methods are the reference for Py/Str.lean (whitespace and line-boundary tables compared exhaustively on every run)",
-    "literal_eval, Jinja2 (`_render_string`), the Colang parsers and both runtimes are not modelled: they are exercised end-to-end only",
+    "Jinja2, literal_eval, the Colang 1.0 parser and compute_next_steps are ORACLES of the models (any result, any exception); their real behaviour is observed by the differential tasks (parse spy, literal_eval classification, step table) and exercised end-to-end",
+    "dataflow translator harness/translate/c17.py: provenance roots by name, intra-procedural, closures = join of what their body reads",
 ]
 ASSUMPTIONS = [
-    "the theorems cover the text post-processing inside the generation actions and the dispatcher's containment; code outside actions that consumes LLM-derived text (v1 _process_start_flow, v2 AddFlowsAction + execution of generated flows) is search territory",
+    "the theorems cover the text post-processing inside the generation actions, the dispatcher's containment, the try/except structure of v1 _process_start_flow and the generate_events loop (parser / compute_next_steps as oracles) and the literal_eval wrapper of 2.x GenerateValueAction; v2 AddFlowsAction + the execution of generated flows, eval_expression and Jinja itself are search territory",
+    "multi_step_never_raises_repaired and generate_value_v2_total are about the REPAIRED code (fixes/C17-v1-flow-error-ends-turn.diff, fixes/C17-v2-generated-value-plain.diff); on the unpatched tree the as-is theorems are the partial ones and the differential accepts either behaviour inside the open findings' regions",
     "escape_flow_name's `\\b\\d+\\b` step is modelled for ASCII text only (non-ASCII strings are compared up to the replace chain by the oracle-only stream)",
     "completions longer than 4000 characters are only run end-to-end (the model driver recurses over List Char)",
 ]
